@@ -59,9 +59,7 @@ def _cases(draw, tier):
     choices = draw(strategies.choice_lists_nonempty) if mode == 'eb' else []
     decoy = _lp.draw_decoy(draw, inst)
     _ret = {'inst': inst, 'opts': opts, 'choices': choices, 'mode': mode, 'salt': salt}
-    if decoy:
-        _ret['decoy'] = decoy
-    return _ret
+    return _lp.attach_decoy(_ret, decoy)
 
 
 def strategy(tier):
